@@ -55,7 +55,7 @@ def make_world(specs: SpecSet, repo_root: str | None = None) -> World:
 
 
 def verify_function(w: World, specs: SpecSet, fq: str, timeout_ms: int = 10000, seed: int = 0,
-                    max_paths: int = 3000, jobs: int = 8) -> FnReport:
+                    max_paths: int = 3000, jobs: int = 8, single_attempt=()) -> FnReport:
     t0 = time.time()
     rep = FnReport(fq)
     try:
@@ -140,7 +140,7 @@ def verify_function(w: World, specs: SpecSet, fq: str, timeout_ms: int = 10000, 
     # discharge
     ax = w.global_axioms()
     obs = list(eng.obligations.values())
-    res = discharge_all(obs, ax, timeout_ms, seed, jobs)
+    res = discharge_all(obs, ax, timeout_ms, seed, jobs, single_attempt=set(single_attempt))
     for ob in obs:
         r = res[ob.oid]
         rep.solver_s += r["time"]
